@@ -27,7 +27,7 @@ import queue
 import re
 import time
 from collections import defaultdict
-from threading import Event, RLock, current_thread
+from threading import Event, Lock, RLock, current_thread
 
 import frappy.params
 from frappy.datatypes import get_datatype
@@ -334,6 +334,7 @@ class SecopClient(ProxyClient):
         self.uri = uri
         self.nodename = uri
         self._lock = RLock()
+        self._requests_lock = Lock()  # guards active_requests against the rx and tx threads
         self._shutdown = Event()
         self.cleanup = []
         self.register_callback(None, self.handleError)
@@ -418,11 +419,16 @@ class SecopClient(ProxyClient):
                 key = (reply_action, request[1])  # action and identifier
             else:  # allow experimental unknown requests, but only one at a time
                 key = None
-            if key in self.active_requests:
-                # store to requeue after the next reply was received
-                self.pending.put(entry)
-            else:
-                self.active_requests[key] = entry
+            with self._requests_lock:
+                # check and park in one step: the reply to the colliding request must not
+                # slip in between, else the parked request would not be requeued
+                parked = key in self.active_requests
+                if parked:
+                    # store to requeue after the next reply was received
+                    self.pending.put(entry)
+                else:
+                    self.active_requests[key] = entry
+            if not parked:
                 line = encode_msg_frame(*request)
                 self.log.debug('TX: %r', line)
                 self.io.send(line)
@@ -484,20 +490,21 @@ class SecopClient(ProxyClient):
                     except Exception:
                         pass
                     continue
-                try:
-                    key = action, ident
-                    entry = self.active_requests.pop(key)
-                except KeyError:
-                    if action.startswith(ERRORPREFIX):
-                        try:
-                            key = REQUEST2REPLY[action[len(ERRORPREFIX):]], ident
-                        except KeyError:
+                with self._requests_lock:
+                    try:
+                        key = action, ident
+                        entry = self.active_requests.pop(key)
+                    except KeyError:
+                        if action.startswith(ERRORPREFIX):
+                            try:
+                                key = REQUEST2REPLY[action[len(ERRORPREFIX):]], ident
+                            except KeyError:
+                                key = None
+                            entry = self.active_requests.pop(key, None)
+                        else:
+                            # this may be a response to the last unknown request
                             key = None
-                        entry = self.active_requests.pop(key, None)
-                    else:
-                        # this may be a response to the last unknown request
-                        key = None
-                        entry = self.active_requests.pop(key, None)
+                            entry = self.active_requests.pop(key, None)
                 if entry is None:
                     self._unhandled_message(action, ident, data)
                     continue
